@@ -65,8 +65,9 @@ def rule_tables(d, tag):
     return files
 
 
-def validate(rep, records, d, tag, group=('clause', 'logic_family', 'rule')):
-    """records: iterable of 'full' proof records.  Reports one violation per proof with a step outside the model."""
+def validate(rep, records, d, tag, only=None, kind='step_outside_model'):
+    """records: iterable of 'full' proof records.  Reports one violation per proof with a step outside the model
+    (`only`: a predicate on clause names that selects the clauses a property is about)."""
     tables = rule_tables(d, tag)
     by_logic = defaultdict(list)
     nsteps = 0
@@ -101,8 +102,10 @@ def validate(rep, records, d, tag, group=('clause', 'logic_family', 'rule')):
         total += n
         rep.add_tlc(res, traces=n)
         for f in res.json['bad']:
+            if only is not None and not only(f['clause']):
+                continue
             nbad += 1
-            rep.violation({'kind': 'step_outside_model', 'clause': f['clause'], 'logic_family': P.family(f['logic']), 'rule': f['rule'],
+            rep.violation({'kind': kind, 'clause': f['clause'], 'logic_family': P.family(f['logic']), 'rule': f['rule'],
                            'root': '', 'logic': f['logic'], 'argstr': f['argstr']}, f)
     rep.cov['trace_model_proofs'] = total
     rep.cov['trace_model_steps'] = nsteps
